@@ -682,6 +682,27 @@ func checkStructHistory(c structCase) *ev.Failure {
 	env := newEnv(envFull)
 	defer env.Close()
 	pre := fmt.Sprintf("Zq%dq", atomic.AddInt64(&c17seq, 1))
+	// the type registry is process-global and keeps every declared type (and, through its
+	// fields, the interpreter that declared it) alive: drop this case's types afterwards
+	defer func() {
+		for k := range zygo.GoStructRegistry.Registry {
+			if strings.Contains(k, pre) {
+				delete(zygo.GoStructRegistry.Registry, k)
+			}
+		}
+		for k := range zygo.GoStructRegistry.Userdef {
+			if strings.Contains(k, pre) {
+				delete(zygo.GoStructRegistry.Userdef, k)
+			}
+		}
+		kept := zygo.ListRegisteredTypes[:0]
+		for _, n := range zygo.ListRegisteredTypes {
+			if !strings.Contains(n, pre) {
+				kept = append(kept, n)
+			}
+		}
+		zygo.ListRegisteredTypes = kept
+	}()
 	m := newSModel()
 	var done []string
 	for i, o := range c.Ops {
